@@ -193,6 +193,18 @@ var encodings = []encoding{
 	directEnc("direct", "/api"),
 	queryEnc("query", "/api"),
 	queryEnc("query-noapi", ""),
+	{"query-json-leading-blank", func(e *engine, r Req) Resp {
+		// JSON-typed parameters written with white space before the opening brace
+		q := url.Values{}
+		for k, v := range r.Params {
+			sv := asString(v)
+			if _, isMap := v.(map[string]interface{}); isMap {
+				sv = " " + sv
+			}
+			q.Set(k, sv)
+		}
+		return httpDo("GET", e.srv.URL+"/api"+r.URI+"?"+q.Encode(), "", "")
+	}},
 	queryEnc("query-version", "/v1.0"),
 	{"form", func(e *engine, r Req) Resp {
 		q := url.Values{}
